@@ -286,6 +286,10 @@ func (a *AggregationProcess) ForAllExpiredFlowRecordsDo(callback FlowKeyRecordMa
 		}
 		err := callback(*pqItem.flowKey, pqItem.flowRecord)
 		if err != nil {
+			// The record is still in the map: put the item back in the priority queue with
+			// its expiry times unchanged, so that the record is tried again at the next call
+			// instead of never expiring.
+			heap.Push(&a.expirePriorityQueue, pqItem)
 			return fmt.Errorf("callback execution failed for popped flow record with key: %v, record: %v, error: %v", pqItem.flowKey, pqItem.flowRecord, err)
 		}
 		// Delete the flow record if it is expired because of inactive expiry timeout.
